@@ -20,13 +20,14 @@ use std::{
     process::{Command, Stdio},
 };
 
-const PATTERN: &str = "{h({l})} {m}{n}{h(<{h({l})}>)}|{n}";
+const PATTERN: &str = "{h({l})} {m}{n}{h(<{h({l})}>)}|{h({l}{m}):.4}|{n}";
 const LEVELS: [Level; 5] = [Level::Error, Level::Warn, Level::Info, Level::Debug, Level::Trace];
 
 fn plain() -> String {
     let mut s = String::new();
     for l in LEVELS {
-        s.push_str(&format!("{} msg-{}\n<{}>|\n", l, l, l));
+        let cut: String = format!("{}msg-{}", l, l).chars().take(4).collect();
+        s.push_str(&format!("{} msg-{}\n<{}>|{}|\n", l, l, l, cut));
     }
     s
 }
